@@ -5,7 +5,7 @@ IDK=$1; ID=${IDK%-*}; K=${IDK#*-}; WT=${2:-/tmp/seed-$ID}; OUT=/tmp/seed-out/$ID
 cd $WT || exit 2
 # demonstrations gated on salsa's shuttle feature need it enabled (one Runner per test thread)
 FEAT=""; TAIL=""
-if grep -q 'feature = "shuttle"' $OUT/$T.rs 2>/dev/null; then FEAT="--features shuttle"; TAIL="-- --test-threads=1"; fi
+if grep 'feature = "shuttle"' $OUT/$T.rs 2>/dev/null | grep -vq 'not(feature = "shuttle")'; then FEAT="--features shuttle"; TAIL="-- --test-threads=1"; fi
 git checkout -q -- . ; git clean -fdq tests/
 exec > $LOG 2>&1
 echo "== demo on unmodified source"
